@@ -163,7 +163,7 @@ def check(run):
     run.floor('R10.link', 7)
     run.floor('R11.take', 8)
     run.floor('R11.place', 10)
-    run.floor('R11.gate', 10)
+    run.floor('R11.gate', 67)
     run.floor('R13.local', 14)
     run.floor('R11.lcompile', 10)
     run.floor('R11.compile', 8)
